@@ -234,6 +234,32 @@ def run(ctx, res):
         )
         roundtrip("DateTime", v, "random-" + _ztag(z))
 
+    # the same instant written in several zones, one after the other in the same process: each string must
+    # keep the wall-clock fields and the offset of the value it was made from (equal instants compare and hash equal)
+    zs = [z for z in ZONES if z is not None] + [dt.timezone(dt.timedelta(hours=2)), dt.timezone(dt.timedelta(hours=14)), dt.timezone(-dt.timedelta(hours=12))]
+    for _ in range(120 if quick else 4000):
+        base = dt.datetime(rng.randint(2, 9998), rng.randint(1, 12), rng.randint(1, 28), rng.randint(0, 23), rng.randint(0, 59), rng.randint(0, 59), rng.choice([0, 0, rng.randint(1, 999999)]), tzinfo=dt.timezone.utc)
+        order = list(zs)
+        rng.shuffle(order)
+        for z in order[: rng.randint(2, len(order))]:
+            roundtrip("DateTime", base.astimezone(z), "same-instant-" + _ztag(z))
+        roundtrip("DateTime", base.replace(tzinfo=None), "same-fields-naive")
+
+    # one affix added to a valid string (a sign, a blank, a zone designator, a digit ...): still judged by O-LEX
+    if ctx.shard == 0:
+        samples = {
+            "Duration": ["PT01H30M00S", "P1D", "-PT00H00M01S", "PT0S", "P2DT12H"],
+            "Date": ["2024-02-29", "0999-12-31"],
+            "DateTime": ["2024-01-31T10:00:00", "2024-01-31T10:00:00Z", "2024-01-31T10:00:00+05:30"],
+            "Boolean": ["true", "false"],
+        }
+        for kind, strs in samples.items():
+            for base_s in strs:
+                for pre in ["+", "-", " ", "\t", "\n", "0", "P", "T", "++", "+-", "\u2212", "\ufeff"]:
+                    d.call(f"{kind}.decode", F[f"{kind}.decode"], pre + base_s, ("dec-affix", "prefix", pre if pre.isascii() and pre.strip() else "blank-or-nonascii"))
+                for suf in ["Z", "z", " ", "\n", "+", "-", "S", "0", "+00:00", "T", "."]:
+                    d.call(f"{kind}.decode", F[f"{kind}.decode"], base_s + suf, ("dec-affix", "suffix", suf if suf.strip() else "blank"))
+
     # --- durations
     step = 7 if quick else 1
     for secs in range(-2 * 86400, 2 * 86400 + 1, step):
